@@ -31,11 +31,19 @@ claimed = {
    text="handlePostConfig proposes only TOML that parsed; applyConfig proposes only for the revision currently in force, as revision+1 with the posted body; in FSM.applyRobustMessage every store to the configuration, its revision and the derived session expiration is dominated by a successful parse of a Config entry (store-anchored assertions), the revision afterwards is the entry's or the old one, and no other entry type and no command handler changes the revision (GLINE writes only the ban map inside the replicated configuration).",
    note="Assumes configuration posts are issued one after another. Survival across snapshot/restore is C03 and not part of this check.",
    design="§5 C16"),
+ "C12": dict(
+   text="The six send helpers are proved against set-valued contracts (the recipient map of the message is exactly: the user / all members of the channel / all members but one / every member of every channel the user lists / all nicknames / all services links — for every iteration order of the maps, via inductive invariants over a ghost visited-set). On top of them cmdPrivmsg is proved to deliver a channel message to every other member and nobody else and a private message only to the owner of the target nickname; in every client handler a numeric reply is proved to go to the causing session and the closing ERROR only to a session being closed; JOIN/PART/KICK/TOPIC/MODE/NICK/QUIT/KILL/INVITE are proved to be announced through the helper for the affected channel (resp. the subject's co-members) under the acting session's own prefix object; that prefix is proved to carry the session's current nickname and user name after every handler (invariant wfPrefix); GetMessages writes only messages whose recipient set contains the session.",
+   note="Assumes the conforming* clauses for services input. The host part of the prefix is not interpreted. For notifications the statement only bounds the recipients; the proof shows which helper is called on which channel/subject. handleGetMessages is checked against its assert@ clauses only.",
+   design="§5 C12"),
+ "C13": dict(
+   text="Guard obligations anchored at the statements that perform privileged effects, each proved on every path reaching it: stores to the topic fields need membership and, on +t channels, channel-operator status; deleting another member (KICK) needs channel-operator status; writing an invitation needs membership and, on +i channels, channel-operator status; stores to channel flags, key and the ban list need the operator privilege evaluated at command start (linked to channel-operator or IRC-operator status by a loop invariant); user modes only for oneself or by an IRC operator; KILL, GLINE's ban-map write and network-wide notices need s.Operator; s.Operator is only set after a configured name/password pair matched (contract of the authOper closure, quantified over all configured operators); s.Server only with a configured services password; joining an existing +i channel needs an invitation, a +k channel without +x the exact key, invitations are used up by the join; a captcha token is only accepted when not older than five minutes; services handlers are only dispatched for services links (dispatch gate).",
+   note="Not covered: the +b clause of JOIN (banned() and regular expressions are not interpreted; DESIGN.md records that a valid captcha on a +x channel skips the +b test), the HMAC signature and 'okay:' purpose of captcha tokens. The MODE privilege is evaluated once per command, as the code does.",
+   design="§5 C13"),
 }
 na = {
  "C05": "whole-system property over process kills, restarts and leader changes of several OS processes running hashicorp/raft; no function contract within reach expresses it (DESIGN §5 C05)",
 }
-notbuilt = ["C01","C02","C03","C04","C07","C08","C09","C12","C13","C15","C18","C20"]
+notbuilt = ["C01","C02","C03","C04","C07","C08","C09","C15","C18","C20"]
 checks = []
 for pid, c in sorted(claimed.items()):
     checks.append({
